@@ -129,7 +129,12 @@ impl Request {
         }
 
         if let Some(ip) = &example.ip_address {
-            request.remote_addr = Some(IpAddr::from_str(ip).unwrap());
+            match IpAddr::from_str(ip) {
+                Ok(remote_addr) => request.remote_addr = Some(remote_addr),
+                Err(err) => {
+                    log::error!("cannot parse ip address {}: {}", ip, err);
+                }
+            }
         }
 
         if let Some(datetime) = &example.datetime {
